@@ -147,21 +147,21 @@ def custom_forms(chk, P):
     I = F.make_interp(P)
     M.install_cexprtk(I)
     func = I.instantiate(cx, [_form_tuple(I, P, "f", ["r", "A", "B"], "A*r + B")], {}, None)
-    table = func.attrs["_local_symbol_table"].obj
+    table = M.symbol_table_of(func)
     site = cx.lookup("__call__").site()
     for trial, vals in enumerate((("r1", "a1", "b1"), ("r2", "a2", "b2"))):
         v = I.call(func, [Num(ep.sym(x)) for x in vals], {})
-        expr = func.attrs.get("_expression")
-        evs = expr.obj.evaluations if isinstance(expr, PyObjV) else []
+        expr = M.expression_of(func)
+        evs = expr.evaluations if expr is not None else []
         last = evs[-1] if evs else {}
         ok = len(evs) == trial + 1 and all(k in last and ep.equal(I.num(last[k]), ep.sym(x))[0] for k, x in zip(("r", "A", "B"), vals))
         chk.ob("C09.O3", "call %d: at the moment the expression is evaluated r, A, B hold the arguments in positional order" % (trial + 1), ok,
                site=site, found=dict((k, repr(v)) for k, v in last.items()), expect=dict(zip(("r", "A", "B"), vals)),
                key="C09.O3|binding|call%d" % (trial + 1))
-    expr = func.attrs.get("_expression")
+    expr = M.expression_of(func)
     chk.ob("C09.O3", "the expression text is the form's own formula and it is parsed against the form's own symbol table",
-           isinstance(expr, PyObjV) and expr.obj.text == "A*r + B" and expr.obj.table is table, site=site,
-           found=getattr(getattr(expr, "obj", None), "text", None), expect="A*r + B", key="C09.O3|own-table")
+           expr is not None and expr.text == "A*r + B" and expr.table is table, site=site,
+           found=getattr(expr, "text", None), expect="A*r + B", key="C09.O3|own-table")
     # arity is asserted
     try:
         I.call(func, [Num(ep.sym("r"))], {})
@@ -180,10 +180,10 @@ def custom_forms(chk, P):
     forms = ListV([_form_tuple(J, P, n, ["r"], "r") for n in ("first", "second", "third")], "list")
     robj = J.instantiate(reg, [PyObjV(Cfg(ListV([], "list"), forms))], {"register_standard": TRUE, "register_pymath_functions": TRUE}, None)
     table_of = {}
-    for k, pf in robj.attrs["_potential_forms"].items.values():
-        if k.v in ("first", "second", "third"):
-            fn = J.getattr(pf, "potential_function")
-            table_of[k.v] = set(fn.attrs["_local_symbol_table"].obj.functions.d)
+    for lab in ("first", "second", "third"):
+        pf = J.getitem(robj, Const(lab))
+        fn = J.getattr(pf, "potential_function")
+        table_of[lab] = set(M.symbol_table_of(fn).functions.d)
     rsite = reg.site_of("_register_with_each_other")
     for name in ("first", "second", "third"):
         others = {"first", "second", "third"} - {name}
@@ -373,7 +373,7 @@ def documented(chk, P):
     doc_mods = set(re.findall(r"^\.\. _modifier-(\w+):", txt, re.M))
     I = F.make_interp(P)
     mr = I.instantiate(P.cls("atsim.potentials.config._modifier_registry", "Modifier_Registry"), [], {}, None)
-    reg = set(k.v for k, _ in mr.attrs["_modifiers"].items.values())
+    reg = F.registered_modifiers(I, mr, doc_mods)
     site = P.cls("atsim.potentials.config._modifier_registry", "Modifier_Registry").site_of("_register_standard")
     chk.ob("C09.O8", "the registered modifiers are exactly the documented ones", reg == doc_mods and len(reg) >= 5, site=site, found=sorted(reg),
            expect=sorted(doc_mods), key="C09.O8|modifiers")
